@@ -85,6 +85,28 @@ def cases(tier, rng):
     return cs
 
 
+def search(tier, rng, broken):
+    """A tie is broken (typically: the implementation's fragment size differs from the model's): look for a packet that no longer
+    survives - a full fragment, and one octet less, for every domain length 1..200 and every codec, sized by what the implementation
+    computes now."""
+    doms = []
+    for n in range(1, 201):
+        d = domain(n, rng)
+        if len(d) == n:
+            doms.append(d)
+    pairs = [(codec, dom) for codec in CODECS for dom in doms]
+    mtus = impl_mtus(pairs)
+    cs = []
+    for codec, dom in pairs:
+        m = mtus.get((codec, dom))
+        if m is None or m <= 0 or m > 4000:
+            continue
+        for n in (m, m - 1):
+            data = bytes((i * 31 + n) & 255 for i in range(n))
+            cs.append(mk(codec, 10, dom, "pkt 7 %d 1 %d %s" % (n & 0xFFFF, (3 * n) & 0xFFFF, hx(data)), "pkt-search", True))
+    return cs
+
+
 PATTERNS = {
     84: [b"aA" + b"abcdefghijklmnopqrstuvwxyz012345"],
     83: [b"aAbBcCdDeEfFgGhHiIjJkKlLmMnNoOpPqQrRsStTuUvVwWxXyYzZ+0129-"],
